@@ -138,7 +138,10 @@ def histories(run, graphs, seeds, length, *, flavour='plain', concurrent=3, read
     traces = []
     for g, seed in itertools.product(graphs, seeds):
         with harness.scratch() as d:
-            s = repodrv.Session(g, d, seed=seed, flavour=flavour, concurrent=concurrent, foreign=foreign, **(session_kw or {}))
+            kw = dict(session_kw or {})
+            if kw.get('cache') == '__shared__':
+                kw['cache'] = str(d / 'shared-cache')      # one cache directory for every key (the CLI default for one OS user)
+            s = repodrv.Session(g, d, seed=seed, flavour=flavour, concurrent=concurrent, foreign=foreign, **kw)
             desc = repodrv.random_history(s, length, reads=reads, **hist_kw)
             if post:
                 post(s, desc)
